@@ -123,7 +123,7 @@ def clamp(lo: Fraction, hi: Fraction, x: Fraction) -> Fraction:
 
 def expected_values(hp: dict, own) -> set:
     lo, hi = Fraction(hp["lo"]), Fraction(hp["hi"])
-    return {cast(hp["dt"], clamp(lo, hi, Fraction(own) * Fraction(f))) for f in (hp["shrink"], hp["grow"])}
+    return {cast(hp["dt"], clamp(lo, hi, Q(own) * Fraction(f))) for f in (hp["shrink"], hp["grow"])}
 
 
 def exactly_representable(q: Fraction) -> bool:
@@ -138,6 +138,23 @@ def fl(q: Fraction) -> float:
     if Fraction(x) != q:
         raise InfraError(f"generator produced a non-dyadic number {q}")
     return x
+
+
+def num_of(v):
+    """python number behind a 0-dim tensor / numpy scalar (exact)"""
+    if torch.is_tensor(v):
+        return v.item()
+    if isinstance(v, np.generic):
+        return v.item()
+    return v
+
+
+def fr(v) -> str:
+    return frac(num_of(v))
+
+
+def Q(v) -> Fraction:
+    return Fraction(num_of(v))
 
 
 def tag_of(v) -> str:
@@ -338,7 +355,10 @@ def spaces_for(algo: str):
     return box, act
 
 
-def gen_hp(rng: random.Random, name: str, drift: bool) -> dict:
+INT_OK = {"gamma", "gae_lambda", "clip_coef", "ent_coef", "vf_coef"}   # asserted (float, int) by the constructors
+
+
+def gen_hp(rng: random.Random, name: str, drift: bool, ma: bool = False) -> dict:
     if name in FLOAT_BOX:
         e0, e1 = FLOAT_BOX[name]
         a, b = sorted((rng.randint(e0, e1), rng.randint(e0, e1)))
@@ -351,6 +371,23 @@ def gen_hp(rng: random.Random, name: str, drift: bool) -> dict:
         if Fraction(v).numerator.bit_length() > 6:
             v = lo
         dt = "f"
+        # the agent may HOLD a float hyper-parameter in another number type: an int literal at an integral
+        # point of the range (gamma=1, gae_lambda=1, ent_coef=0 — the constructors accept them), a numpy
+        # scalar read from a config file, a 0-dim tensor (gamma).  The mutated attribute on the agent must
+        # still be a float in range.  (int-typed hyper-parameters are asserted `int` by every constructor.)
+        vtype = None
+        x = rng.random()
+        if not drift and name in INT_OK and not (name == "gamma" and ma) and x < 0.45:
+            if name != "gamma" and rng.random() < 0.3:
+                lo, v = Fraction(0), Fraction(0)
+            else:
+                hi, v = max(hi, Fraction(1)), Fraction(1)
+                lo = min(lo, hi)
+            vtype = "int"
+        elif not drift and x < 0.60:
+            vtype = "np"
+        elif not drift and name == "gamma" and not ma and x < 0.70:
+            vtype = "tensor"
     else:
         i0, i1 = INT_BOX[name]
         a, b = sorted((rng.randint(i0, i1), rng.randint(i0, i1)))
@@ -366,10 +403,14 @@ def gen_hp(rng: random.Random, name: str, drift: bool) -> dict:
         sh, gr = rng.choice(SMALL_SHRINK), rng.choice(SMALL_GROW)
         if rng.random() < 0.06:
             sh, gr = rng.choice([(Fraction(1), gr), (sh, Fraction(1)), (Fraction(5, 4), Fraction(3, 4))])
-    return {"name": name, "lo": str(lo), "hi": str(hi), "shrink": str(sh), "grow": str(gr), "dt": dt, "v": str(v)}
+    out = {"name": name, "lo": str(lo), "hi": str(hi), "shrink": str(sh), "grow": str(gr), "dt": dt, "v": str(v)}
+    if dt == "f" and vtype:
+        out["vtype"] = vtype
+    return out
 
 
-def gen_case(rng: random.Random, tier: str, algo: str | None = None, drift: bool = False) -> dict:
+def gen_case(rng: random.Random, tier: str, algo: str | None = None, drift: bool = False,
+             types: bool = False) -> dict:
     if algo is None:
         names = list(QUICK_WEIGHTS)
         algo = rng.choices(names, weights=[QUICK_WEIGHTS[a] for a in names])[0]
@@ -385,8 +426,20 @@ def gen_case(rng: random.Random, tier: str, algo: str | None = None, drift: bool
         chosen = [n for n in cand if rng.random() < 0.45] or [rng.choice(cand)]
         if rng.random() < 0.7:
             chosen = list(dict.fromkeys(chosen + [rng.choice(lrs)]))
+    if types:
+        # every float hyper-parameter the constructor lets through as an int is HELD as an int (or as a numpy
+        # scalar / 0-dim tensor) when it is first mutated
+        ok = [n for n in info["floats"] if n in INT_OK and not (n == "gamma" and info["ma"])]
+        chosen = ok if ok else list(lrs)
     rng.shuffle(chosen)
-    hps = [gen_hp(rng, n, drift) for n in chosen]
+    hps = [gen_hp(rng, n, drift, info["ma"]) for n in chosen]
+    if types:
+        for h in hps:
+            if h["name"] in INT_OK and not (h["name"] == "gamma" and info["ma"]) and rng.random() < 0.8:
+                if h.get("vtype") != "int":
+                    h.update(v="1", hi=str(max(Fraction(h["hi"]), Fraction(1))), vtype="int")
+            elif "vtype" not in h:
+                h["vtype"] = rng.choice(["np", "np", "tensor"]) if h["name"] == "gamma" else "np"
     pop = rng.choice([1, 2, 2, 3, 3, 4]) if not drift else rng.choice([2, 3])
     ops, size, nmut = [], pop, 0
     length = rng.randint(4, 10) if tier == "quick" else rng.randint(4, 16)
@@ -414,15 +467,55 @@ def gen_case(rng: random.Random, tier: str, algo: str | None = None, drift: bool
         elif x < 0.80 and size < 5:
             ops.append(["clone", rng.randrange(size)])
             size += 1
+        elif x < 0.88 and not drift:
+            # a continuation through the disk: save_checkpoint -> load_checkpoint into an un-mutated twin
+            # ("ckpt") or -> Algo.load ("load"); the restored agent takes the place of the saved one
+            ops.append([rng.choice(["ckpt", "ckpt", "load"]), rng.randrange(size)])
         else:
             ops.append(["select", rng.random() < 0.6, [rng.randint(0, 9) for _ in range(size)]])
     if not any(o[0] in ("mut", "mutall") for o in ops):
         ops.insert(0, ["mut", 0])
+    # "the new value is what the agent SUBSEQUENTLY uses": in half of the histories one mutation is followed
+    # IMMEDIATELY (no learning step in between: the re-created optimizer is still stateless) by a
+    # continuation of that agent — checkpoint round trip, load(), clone, learning step
+    if not drift and rng.random() < 0.5:
+        at = rng.choice([i for i, o in enumerate(ops) if o[0] in ("mut", "mutall")])
+        who = ops[at][1] if ops[at][0] == "mut" else 0
+        cont = rng.choice(["ckpt", "ckpt", "load", "clone", "learn"])
+        ops.insert(at + 1, [cont, who])
+        if rng.random() < 0.5:
+            ops.insert(at + 2, ["learn", who])
     return {"algo": algo, "pop": pop, "via": "population" if rng.random() < 0.25 else "create_population",
             "hps": hps, "ops": ops, "seed": rng.randrange(1 << 30)}
 
 
+def start_value(hp: dict, native: bool = False):
+    """the initial value in the number type the case asks the agent to hold it in"""
+    v = Fraction(hp["v"])
+    if hp["dt"] == "i":
+        return int(v)
+    t = None if native else hp.get("vtype")
+    if t == "int" and v.denominator == 1:
+        return int(v)
+    if t == "np":
+        return np.float64(fl(v))
+    if t == "tensor":
+        return torch.tensor(fl(v))
+    return fl(v)
+
+
 def build_population(case: dict):
+    """the population; when a constructor rejects a requested start-value type (assert isinstance …) the
+    case is rebuilt with native types (case['_native'] is set so that the rest of the run knows)"""
+    if any(h.get("vtype") for h in case["hps"]) and not case.get("_native"):
+        try:
+            return _build_population(case)
+        except (AssertionError, TypeError, ValueError):
+            case["_native"] = True
+    return _build_population(case)
+
+
+def _build_population(case: dict):
     from agilerl.algorithms.core.registry import HyperparameterConfig, RLParameter
     from agilerl.utils.utils import create_population
     algo = case["algo"]
@@ -436,9 +529,8 @@ def build_population(case: dict):
             max=int(hi) if isint and hi.denominator == 1 else fl(hi),
             shrink_factor=fl(Fraction(hp["shrink"])), grow_factor=fl(Fraction(hp["grow"])),
             dtype=int if isint else float)
-        v = Fraction(hp["v"])
         if hp["name"] in INIT_KEY:
-            init[INIT_KEY[hp["name"]]] = int(v) if isint else fl(v)
+            init[INIT_KEY[hp["name"]]] = start_value(hp, native=case.get("_native", False))
     if case.get("same_object_lrs"):
         init["LR_CRITIC"] = init["LR_ACTOR"]               # one float object for both learning rates
     cfg = HyperparameterConfig(**cfg_kwargs)
@@ -479,7 +571,7 @@ def optimizer_state_sizes(agent, opt_attrs) -> dict:
 def dump_line(pop, all_names, opt_attrs) -> str:
     parts = []
     for a in pop:
-        attrs = " ".join(frac(getattr(a, n)) for n in all_names)
+        attrs = " ".join(fr(getattr(a, n)) for n in all_names)
         opts = " ; ".join(" ".join(frac(x) for x in opt_groups(a, o)) for o in opt_attrs)
         parts.append(attrs + " @ " + opts)
     return " | ".join(parts)
@@ -521,33 +613,34 @@ def check_mutated(j, a, before, others_before, hps, table, where, problems, tags
     own, new = before["hp"][mut], getattr(a, mut)
     exp = expected_values(hp, own)
     for f in (hp["shrink"], hp["grow"]):
-        if not exactly_representable(Fraction(own) * Fraction(f)):
+        if not exactly_representable(Q(own) * Fraction(f)):
             raise InfraError(f"inexact product generated: {own}*{f} ({where})")
     lo, hi = Fraction(hp["lo"]), Fraction(hp["hi"])
     rlo, rhi = cast(hp["dt"], lo), cast(hp["dt"], hi)
-    if Fraction(new) not in exp:
+    if Q(new) not in exp:
         foreign = [k for k, ob in others_before
-                   if Fraction(new) in expected_values(hp, ob["hp"][mut]) and ob["hp"][mut] != own]
+                   if Q(new) in expected_values(hp, ob["hp"][mut]) and ob["hp"][mut] != own]
         hint = f"; it IS agent {foreign[0]}'s value × factor" if foreign else ""
-        problems.append(f"{where}: agent {j} (index {a.index}) {mut}: {frac(own)} -> {frac(new)}, but own value × "
+        problems.append(f"{where}: agent {j} (index {a.index}) {mut}: {fr(own)} -> {fr(new)}, but own value × "
                         f"shrink|grow clipped to [{lo}, {hi}] and cast to {hp['dt']} is one of "
                         f"{sorted(map(str, exp))}{hint} [wrong base value]")
-    if not (rlo <= Fraction(new) <= rhi):
-        problems.append(f"{where}: agent {j} {mut} = {frac(new)} is outside [{rlo}, {rhi}] [out of range]")
+    if not (rlo <= Q(new) <= rhi):
+        problems.append(f"{where}: agent {j} {mut} = {fr(new)} is outside [{rlo}, {rhi}] [out of range]")
     if tag_of(new) != hp["dt"]:
-        problems.append(f"{where}: agent {j} {mut} is a {type(new).__name__}, configured dtype {hp['dt']}")
+        problems.append(f"{where}: agent {j} (index {a.index}) {mut} = {new!r} is a {type(new).__name__} on the agent "
+                        f"(held as {type(own).__name__} {own!r} before), configured dtype {hp['dt']} [wrong type]")
     users = [o for o, lrn in table.items() if lrn == mut]
     for o in users:
         got = opt_groups(a, o)
         if any(g != new for g in got):
-            problems.append(f"{where}: agent {j} (index {a.index}) mutated {mut} to {frac(new)} but {o} still steps "
+            problems.append(f"{where}: agent {j} (index {a.index}) mutated {mut} to {fr(new)} but {o} still steps "
                             f"with lr {[frac(g) for g in got]} [optimizer not updated]")
     for o, lrn in table.items():
         if lrn != mut and opt_groups(a, o) != before["opt"].get(o):
             problems.append(f"{where}: agent {j}: {o} (on {lrn}) changed its lr although {mut} was mutated")
     # tags
-    if Fraction(new) in (rlo, rhi) and Fraction(new) not in (Fraction(own) * Fraction(hp["shrink"]),
-                                                            Fraction(own) * Fraction(hp["grow"])):
+    if Q(new) in (rlo, rhi) and Q(new) not in (Q(own) * Fraction(hp["shrink"]),
+                                                            Q(own) * Fraction(hp["grow"])):
         tags.append("clipped")
     if hp["dt"] == "i":
         tags.append("int-hp")
@@ -559,6 +652,8 @@ def check_mutated(j, a, before, others_before, hps, table, where, problems, tags
         tags.append("lr-of-one-optimizer")
     if shared:
         tags.append("shared-config-mutation")
+    if tag_of(own) != hp["dt"] or type(own) not in (int, float):
+        tags.append(f"held-as-{type(own).__name__}")
     tags.append(f"hp-{mut}")
 
 
@@ -591,14 +686,18 @@ def run_case(case: dict):
     model.append("hpmut opts %d " % len(opt_attrs) + " ".join(
         f"{all_names.index(l)} {len(opt_groups(pop[0], o))}" for o, l in zip(opt_attrs, lr_names)))
     impl.append("ok")
-    model.append(f"hpmut pop own all {len(pop)} " + " ".join(frac(getattr(pop[0], n)) for n in all_names))
+    model.append(f"hpmut pop own all {len(pop)} " + " ".join(fr(getattr(pop[0], n)) for n in all_names))
     impl.append("ok")
     model.append("hpmut dump")
     impl.append(dump_line(pop, all_names, opt_attrs))
     for h in hps:                                     # the initial value is the one we asked for
-        if Fraction(getattr(pop[0], h["name"])) != Fraction(h["v"]) and h["name"] in INIT_KEY:
+        if Q(getattr(pop[0], h["name"])) != Fraction(h["v"]) and h["name"] in INIT_KEY:
             raise InfraError(f"{algo}.{h['name']} = {getattr(pop[0], h['name'])}, asked for {h['v']}")
     check_invariant(pop, table, "after construction", problems)
+
+    stateless_lr: set = set()        # id(agent): a learning rate was mutated and no learn() happened since
+    if case.get("_native"):
+        tags.append("start-type-rejected-by-constructor")
 
     def shared_cfg(a) -> bool:
         return sum(1 for b in pop if b.registry.hp_config is a.registry.hp_config) > 1
@@ -627,7 +726,7 @@ def run_case(case: dict):
             trace.append({"op": op, "agent": j, "perm": perm, "coin": coin, "mut": a.mut})
             model.append(f"hpmut mut {j} {frac(coin)} " + " ".join(map(str, perm)))
             k = names.index(a.mut) if a.mut in names else -1
-            impl.append(f"{k} {tag_of(getattr(a, a.mut, None))} {frac(getattr(a, a.mut))}" if k >= 0 else str(a.mut))
+            impl.append(f"{k} {tag_of(getattr(a, a.mut, None))} {fr(getattr(a, a.mut))}" if k >= 0 else str(a.mut))
             check_mutated(j, a, snap[j], [(i, x) for i, x in enumerate(snap) if i != j], hps, table, where, problems, tags, sh)
             for i, b in enumerate(pop):
                 if i == j:
@@ -636,6 +735,8 @@ def run_case(case: dict):
                 if any(not same_value(now["hp"][n], snap[i]["hp"][n]) for n in names) or now["opt"] != snap[i]["opt"]:
                     problems.append(f"{where}: agent {i} moved although agent {j} was mutated")
             tags.append("op-mut")
+            if a.mut in lr_names:
+                stateless_lr.add(id(a))
         elif op[0] == "mutall":
             snap = snapshot(pop, names, table)
             shs = [shared_cfg(a) for a in pop]
@@ -656,10 +757,11 @@ def run_case(case: dict):
                 trace.append({"op": op, "agent": j, "perm": perm, "coin": coin, "mut": a.mut})
                 model.append(f"hpmut mut {j} {frac(coin)} " + " ".join(map(str, perm)))
                 k = names.index(a.mut) if a.mut in names else -1
-                impl.append(f"{k} {tag_of(getattr(a, a.mut, None))} {frac(getattr(a, a.mut))}" if k >= 0 else str(a.mut))
+                impl.append(f"{k} {tag_of(getattr(a, a.mut, None))} {fr(getattr(a, a.mut))}" if k >= 0 else str(a.mut))
                 check_mutated(j, a, snap[j], [(i, x) for i, x in enumerate(snap) if i != j], hps, table, where, problems,
                               tags, shs[j])
             tags.append("op-mutall")
+            stateless_lr.update(id(a) for a in pop if a.mut in lr_names)
         elif op[0] == "learn":
             # one real learning step (harness/agents.py builds the batch in the form learn() accepts); the
             # model is untouched: no hyper-parameter and no optimizer learning rate may move
@@ -670,6 +772,7 @@ def run_case(case: dict):
                 try:
                     agents.learn_once(pop[j], algo, "vector", seed=(s + 31 * j) % (2 ** 31), n=8)
                     tags.append("op-learn")
+                    stateless_lr.discard(id(pop[j]))
                 except Exception as e:              # whether learn() works at all is not C06's subject
                     tags.append(f"op-learn-raised-{type(e).__name__}")
             now = snapshot(pop, names, table)
@@ -679,6 +782,45 @@ def run_case(case: dict):
             trace.append({"op": op, "agents": who,
                           "optimizer_has_state": [optimizer_state_sizes(pop[j], opt_attrs) for j in who]})
             # (the dump after every op, below, compares every optimizer lr with the untouched model)
+        elif op[0] in ("ckpt", "load"):
+            # save_checkpoint(agent j) -> load_checkpoint into a freshly built, un-mutated twin / Algo.load();
+            # the restored agent replaces agent j.  Model: `reload j` (attributes and group lrs by value)
+            import os
+            import tempfile
+            j = op[1] % len(pop)
+            a = pop[j]
+            fd, path = tempfile.mkstemp(prefix="c06_", suffix=".pt")
+            os.close(fd)
+            twin = None
+            try:
+                a.save_checkpoint(path)
+                if op[0] == "ckpt":
+                    twin = build_population({**case, "pop": 1})[0][0]
+                    seed_all(s)
+                    twin.load_checkpoint(path)
+                else:
+                    twin = type(a).load(path)
+                tags.append(f"op-{op[0]}")
+            except InfraError:
+                raise
+            except Exception as e:                  # whether checkpoints work at all is C07's subject
+                twin = None
+                tags.append(f"op-{op[0]}-raised-{type(e).__name__}")
+            finally:
+                if os.path.exists(path):
+                    os.remove(path)
+            if twin is not None:
+                if id(a) in stateless_lr:
+                    tags.append("restored-right-after-lr-mutation")
+                    stateless_lr.add(id(twin))
+                for n in names:
+                    if not same_value(getattr(twin, n), getattr(a, n)):
+                        problems.append(f"{where}: agent {j} saved with {n}={getattr(a, n)!r}, restored agent has "
+                                        f"{getattr(twin, n)!r}")
+                pop[j] = twin
+                model.append(f"hpmut reload {j}")
+                impl.append("ok")
+                trace.append({"op": op, "agent": j})
         elif op[0] == "othermut":
             j = op[1] % len(pop)
             kind = op[2]
@@ -779,7 +921,7 @@ def normalize_ops(case: dict) -> dict:
     """agent indices are taken modulo the current population size; write them out"""
     size, ops = case["pop"], []
     for op in case["ops"]:
-        if op[0] in ("mut", "clone", "othermut") or op[0] == "learn" and op[1] >= 0:
+        if op[0] in ("mut", "clone", "othermut", "ckpt", "load") or op[0] == "learn" and op[1] >= 0:
             ops.append([op[0], op[1] % size] + list(op[2:]))
             size += op[0] == "clone"
         else:
@@ -887,7 +1029,10 @@ def run(chk: Check) -> None:
                 "Algo.population with one shared HyperparameterConfig over random subsets of their numeric "
                 "hyperparameters, then 4-16 ops (real learn() step of one/all agents — 60% of the histories start "
                 "with one, so optimizers hold state when mutated | mutate one agent | Mutations.mutation(pop) | "
-                "another mutation kind | clone | tournament selection), plus long power-of-two drift runs; "
+                "another mutation kind | clone | tournament selection | save_checkpoint -> load_checkpoint into an "
+                "un-mutated twin | save_checkpoint -> Algo.load), half of the histories with such a continuation "
+                "immediately after a mutation; start values also held as int literals (float hps at 0/1), numpy "
+                "scalars, 0-dim tensors; plus long power-of-two drift runs; "
                 "distinct = distinct (algo, config, ops); "
                 "non-trivial = some mutation hit a bound, truncated an int, hit a learning rate used by >= 2 "
                 "optimizers, mutated the learning rate of an optimizer that already holds state, or mutated an "
@@ -965,9 +1110,13 @@ def run(chk: Check) -> None:
         cases.append(gen_case(rng, chk.tier))
     for _ in range(3 if quick else 25):
         cases.append(gen_case(rng, chk.tier, algo=rng.choice(["DQN", "TD3", "IPPO", "PPO", "DDPG"]), drift=True))
+    for a in ALGOS:                                        # start values held in another number type
+        for _ in range(1 if quick else 6):
+            cases.append(gen_case(rng, chk.tier, algo=a, types=True))
     ndiff = 0
     interesting = {"clipped", "int-hp", "lr-of-several-optimizers", "shared-config-mutation",
-                   "lr-mutation-of-trained-optimizer"}
+                   "lr-mutation-of-trained-optimizer", "restored-right-after-lr-mutation", "held-as-int",
+                   "held-as-float64", "held-as-Tensor"}
     for idx, case in enumerate(cases):
         diff, problems, tags, impl, model_out, trace = one_case(chk, case)
         chk.case([case["algo"], case["pop"], case["hps"], case["ops"]],
@@ -1009,6 +1158,16 @@ SELFTEST_LEARN = {"algo": "DQN", "pop": 1, "via": "create_population",
                   "hps": [{"name": "lr", "lo": "1/65536", "hi": "1/16", "shrink": "1/2", "grow": "2", "dt": "f",
                            "v": "1/1024"}],
                   "ops": [["learn", 0], ["mut", 0]], "seed": 17}
+
+
+SELFTEST_TYPE = {"algo": "DQN", "pop": 1, "via": "create_population",
+                 "hps": [{"name": "gamma", "lo": "1/2", "hi": "1", "shrink": "3/4", "grow": "5/4", "dt": "f", "v": "1",
+                          "vtype": "int"}],
+                 "ops": [["mut", 0]], "seed": 19}
+SELFTEST_CKPT = {"algo": "TD3", "pop": 1, "via": "create_population",
+                 "hps": [{"name": "lr_critic", "lo": "1/65536", "hi": "1/16", "shrink": "1/2", "grow": "2", "dt": "f",
+                          "v": "1/512"}],
+                 "ops": [["mut", 0], ["ckpt", 0]], "seed": 23}
 
 
 def selftest(chk: Check) -> None:
@@ -1099,6 +1258,34 @@ def selftest(chk: Check) -> None:
                          + ("invisible (needs the learn op)" if d0 is None and not p0 else "visible too"))
     finally:
         mm.Mutations.reinit_opt = orig_reinit
+
+
+    # (6) the mutated value is cast back to the number type the agent held before (gamma=1 given as int)
+    def keep_type(self, individual):
+        before = {n: getattr(individual, n) for n in individual.registry.hp_config.names()}
+        out = orig_rl(self, individual)
+        cur = before[individual.mut]
+        setattr(individual, individual.mut, type(cur)(getattr(individual, individual.mut)))
+        return out
+    mm.Mutations.rl_hyperparam_mutation = keep_type
+    try:
+        must_fail("mutated value cast to the type the agent held it in", SELFTEST_TYPE)
+    finally:
+        mm.Mutations.rl_hyperparam_mutation = orig_rl
+
+    # (7) a never-stepped optimizer's state_dict (param_groups = the lr!) is not loaded from a checkpoint
+    from agilerl.algorithms.core import wrappers as ww
+    orig_load = ww.OptimizerWrapper.load_state_dict
+
+    def skip_stateless(self, state_dict):
+        sds = state_dict if isinstance(state_dict, list) else [state_dict]
+        if any(len(sd["state"]) > 0 for sd in sds):
+            return orig_load(self, state_dict)
+    ww.OptimizerWrapper.load_state_dict = skip_stateless
+    try:
+        must_fail("stateless optimizer not restored from the checkpoint after an lr mutation", SELFTEST_CKPT)
+    finally:
+        ww.OptimizerWrapper.load_state_dict = orig_load
 
 
 # ----------------------------------------------------------------------------- replay
